@@ -97,6 +97,9 @@ Fixpoint edge_attrs (l : list (Z * eattr)) (v : Z) : eattr :=
   | (w, d) :: r => if w =? v then d else edge_attrs r v
   end.
 
+(* max(meta_molecule.nodes), folded from the key of the last node *)
+Definition kmax (g : mg) (k0 : Z) : Z := fold_left Z.max (map n_key (g_nodes g)) k0.
+
 Section Complement.
   Variable table : list (string * string).
 
@@ -173,8 +176,10 @@ Section Complement.
       | None => Err ErrKey         (* plain BASE_LIBRARY[...] KeyError for the last node *)
       | Some cname =>
         let k := n_key ln in
-        let g1 := add_node g (k + 1) cname in
-        match loop (S (S (List.length (g_nodes g)))) {| s_g := g1; s_corr := [(k, k + 1)]; s_total := k + 1 |} k k with
+        (* total = max(meta_molecule.nodes) + 1: the keys of the new residues continue after the highest key in use *)
+        let m := kmax g k in
+        let g1 := add_node g (m + 1) cname in
+        match loop (S (S (List.length (g_nodes g)))) {| s_g := g1; s_corr := [(k, m + 1)]; s_total := m + 1 |} k k with
         | Err e => Err e
         | Ok s => Ok (s_g s)
         end
